@@ -332,7 +332,7 @@ impl<'a> State<'a> {
                 }
                 self.check_all("C04", "C06", "after construction");
             }
-            Op::Field { rec, field, access, on_stack } => {
+            Op::Field { rec, field, access, place } => {
                 if self.singles.is_empty() {
                     self.flags.skipped_ops += 1;
                     return;
@@ -346,17 +346,18 @@ impl<'a> State<'a> {
                 }
                 let f = &fields[pick(*field, fields.len())];
                 let d = f.id;
-                if *on_stack {
+                let place = *place % 3;
+                if place != 0 {
                     self.flags.stack_accesses += 1;
                 }
                 match access {
                     Access::Get => {
                         if let Some(expected) = self.singles[i].1.slots[&d] {
                             let mut got = 0;
-                            if *on_stack {
-                                self.singles[i].0.with_stack(&mut |r| got = r.get(d));
-                            } else {
-                                got = self.singles[i].0.get(d);
+                            match place {
+                                1 => self.singles[i].0.with_stack(&mut |r| got = r.get(d)),
+                                2 => self.singles[i].0.with_min_aligned(&mut |r| got = r.get(d)),
+                                _ => got = self.singles[i].0.get(d),
                             }
                             if got != expected {
                                 self.find(
@@ -377,8 +378,10 @@ impl<'a> State<'a> {
                     Access::Set | Access::Mutate => {
                         let seed = ctx::fresh_seed();
                         let set = *access == Access::Set || self.singles[i].1.slots[&d].is_none();
-                        if *on_stack {
+                        if place == 1 {
                             self.singles[i].0.with_stack(&mut |r| if set { r.set(d, seed) } else { r.mutate(d, seed) });
+                        } else if place == 2 {
+                            self.singles[i].0.with_min_aligned(&mut |r| if set { r.set(d, seed) } else { r.mutate(d, seed) });
                         } else if set {
                             self.singles[i].0.set(d, seed);
                         } else {
@@ -976,7 +979,7 @@ pub struct CaseResult {
 }
 
 /// Runs one case against one definition.
-pub fn run_case(def: &dyn DefGlue, info: &DefInfo, case: &Case) -> CaseResult {
+pub fn run_case(prop: &str, def: &dyn DefGlue, info: &DefInfo, case: &Case) -> CaseResult {
     vtypes::ledger_reset();
     ctx::reset(case.nonce);
     #[cfg(feature = "hooks")]
@@ -989,7 +992,9 @@ pub fn run_case(def: &dyn DefGlue, info: &DefInfo, case: &Case) -> CaseResult {
     for (k, op) in case.ops.iter().enumerate() {
         st.step = k;
         st.apply(op);
-        if !st.findings.is_empty() {
+        // stop at the first finding that concerns the property being checked (findings of other
+        // properties are only noted: their own checks report them)
+        if st.findings.iter().any(|f| f.prop == prop) || st.findings.len() >= 8 {
             break;
         }
     }
@@ -999,7 +1004,7 @@ pub fn run_case(def: &dyn DefGlue, info: &DefInfo, case: &Case) -> CaseResult {
     drop(singles);
     let groups = std::mem::take(&mut st.groups);
     drop(groups);
-    if st.findings.is_empty() {
+    if !st.findings.iter().any(|f| f.prop == prop) {
         st.check_all("C04", "C06", "after dropping everything that was left");
     }
     CaseResult { findings: st.findings, flags: st.flags }
@@ -1053,7 +1058,7 @@ pub fn check_case(prop: &'static str, defs: &[(&'static dyn DefGlue, &'static dy
     }
     let (small, big, info) = &defs[pick(case.def, defs.len())];
     let def: &dyn DefGlue = if case.big_cap { *big } else { *small };
-    let res = run_case(def, info, case);
+    let res = run_case(prop, def, info, case);
     let mine: Vec<&Finding> = res.findings.iter().filter(|f| f.prop == prop).collect();
     if let Some(f) = mine.first() {
         return Err(Failure::new(
